@@ -9,8 +9,10 @@
 (*          [k, a, b, n, p] exactly like the hook's ModeView               *)
 (*   ck     the checkpoint: [set, pos, ts, ml, nt, nl]                      *)
 (*   pend   pending-statement stack (sequence of 0/1), nest: macro nesting *)
-(*   toks   emitted tokens [ty, ch, c]; lines: line start positions;       *)
-(*   errs   errors [k, c]                                                  *)
+(*   toks   emitted tokens [ty, ch, c, pk, ps, pe] (type, channel, start,  *)
+(*          payload kind n/i/f/s and the literal-buffer range of a string  *)
+(*          payload); lines: line start positions; errs: errors [k, c]     *)
+(*   nlit   length of the unquoted-literal buffer in bytes                 *)
 (*   fault  "" or the internal fault the code would have hit (C01)         *)
 (*   la     high-water mark of look-ahead (only used with lazy input)      *)
 (*                                                                         *)
@@ -18,7 +20,7 @@
 (* or one turn of the unwinding loop of finalize_lexing.  Dispatchers are  *)
 (* written arm by arm after their Rust counterparts; scanners are          *)
 (* recursive operators over the text.  The text T is a record [cs, cc]     *)
-(* (characters and classes, see Chars.tla).                                *)
+(* (characters and classes, see Chars.tla) with cw, the UTF-8 widths.      *)
 (*                                                                         *)
 (* What the code does by accident is modelled as it is (errors are outside *)
 (* the checkpoint, insert_token shifts indices, ...).                      *)
@@ -41,6 +43,25 @@ DigAt(T, i)  == ~Eof(T, i) /\ IsDigit(At(T, i))
 Is1(T, i, c) == At(T, i) = c
 
 Max2(x, y) == IF x > y THEN x ELSE y
+Wd(T, i) == IF i >= 0 /\ i < Len(T.cw) THEN T.cw[i + 1] ELSE 0            \* UTF-8 width
+RECURSIVE SumW(_, _, _)
+SumW(T, a, b) == IF a >= b THEN 0 ELSE Wd(T, a) + SumW(T, a + 1, b)      \* bytes of T[a..b)
+\* scanning T[i..b) with doubled q collapsed: <<escape seen, bytes of the unquoted text>>
+RECURSIVE QScan(_, _, _, _, _, _)
+QScan(T, q, i, b, esc, acc) ==
+  IF i >= b THEN <<esc, acc>>
+  ELSE IF At(T, i) = q /\ i + 1 < b /\ At(T, i + 1) = q THEN QScan(T, q, i + 2, b, TRUE, acc + Wd(T, i))
+  ELSE QScan(T, q, i + 1, b, esc, acc + Wd(T, i))
+\* the same for %-quoting of %str/%nrstr text
+RECURSIVE PScan(_, _, _, _, _)
+PScan(T, i, b, esc, acc) ==
+  IF i >= b THEN <<esc, acc>>
+  ELSE IF At(T, i) = "%" /\ i + 1 < b /\ At(T, i + 1) \in {"\"", "'", "%", "(", ")"}
+         THEN PScan(T, i + 2, b, TRUE, acc + Wd(T, i + 1))
+  ELSE PScan(T, i + 1, b, esc, acc + Wd(T, i))
+\* bytes of a decoded hex string constant (Latin-1 code points as UTF-8)
+HexBytes(content) == LET v == HexDecode(content) IN
+                     Cardinality({i \in 1..Len(v) : TRUE}) + Cardinality({i \in 1..Len(v) : v[i] >= 128})
 
 \* ---------------------------------------------------------------- modes
 M0(k) == [k |-> k, a |-> "", b |-> "", n |-> 0, p |-> 0]
@@ -75,11 +96,11 @@ MLocalGlobal(isLocal) == [M0("MacroLocalGlobal") EXCEPT !.n = IF isLocal THEN 1 
 MNameExpr(found, err) == [M0("MacroNameExpr") EXCEPT !.n = IF found THEN 1 ELSE 0, !.a = err]
 
 \* ---------------------------------------------------------------- state helpers
-NoCk == [set |-> FALSE, pos |-> 0, ts |-> 0, ml |-> 0, nt |-> 0, nl |-> 0]
+NoCk == [set |-> FALSE, pos |-> 0, ts |-> 0, ml |-> 0, nt |-> 0, nl |-> 0, ns |-> 0]
 
 InitState(bom) ==
   [pos |-> bom, ts |-> bom, modes |-> <<MDefault>>, ck |-> NoCk, pend |-> <<0>>, nest |-> 0,
-   toks |-> <<>>, lines |-> <<bom>>, errs |-> <<>>, fault |-> "", la |-> 0, ops |-> <<>>]
+   toks |-> <<>>, lines |-> <<bom>>, errs |-> <<>>, fault |-> "", la |-> 0, ops |-> <<>>, nlit |-> 0, ss |-> 0]
 
 Fault(S, f) == [S EXCEPT !.fault = IF @ = "" THEN f ELSE @]
 EmitErr(S, k) == [S EXCEPT !.errs = Append(@, [k |-> k, c |-> S.pos])]
@@ -95,17 +116,30 @@ SetTop(S, m) == [S EXCEPT !.modes[Len(S.modes)] = m]
 Adv(S, n) == [S EXCEPT !.pos = @ + n]
 Look(S, i) == [S EXCEPT !.la = Max2(@, i)]
 StartTok(S) == [S EXCEPT !.ts = S.pos]
-Emit(S, ch, ty) == [S EXCEPT !.toks = Append(@, [ty |-> ty, ch |-> ch, c |-> S.ts])]
+PkOf(ty) == IF ty \in {"IntegerLiteral", "MacroVarResolve"} THEN "i"
+            ELSE IF ty \in {"FloatLiteral", "FloatExponentLiteral"} THEN "f" ELSE "n"
+Tk(ty, ch, c) == [ty |-> ty, ch |-> ch, c |-> c, pk |-> PkOf(ty), ps |-> 0, pe |-> 0]
+Emit(S, ch, ty) == [S EXCEPT !.toks = Append(@, Tk(ty, ch, S.ts))]
 EmitD(S, ty) == Emit(S, "DEFAULT", ty)
-EmitAt(S, ch, ty, c) == [S EXCEPT !.toks = Append(@, [ty |-> ty, ch |-> ch, c |-> c])]
+EmitAt(S, ch, ty, c) == [S EXCEPT !.toks = Append(@, Tk(ty, ch, c))]
+\* a token with a string payload of n bytes appended to the literal buffer (n < 0: no payload)
+EmitS(S, ty, n) ==
+  IF n < 0 THEN EmitD(S, ty)
+  ELSE [S EXCEPT !.toks = Append(@, [ty |-> ty, ch |-> "DEFAULT", c |-> S.ts, pk |-> "s", ps |-> S.nlit, pe |-> S.nlit + n]),
+                 !.nlit = @ + n]
+\* payload length of quote-collapsed text T[a..b): -1 when nothing was collapsed
+QPay(T, q, a, b) == LET r == QScan(T, q, a, b, FALSE, 0) IN IF r[1] THEN r[2] ELSE 0 - 1
 AddLine(S) == [S EXCEPT !.lines = Append(@, S.pos)]
 LastTok(S) == IF S.toks = <<>> THEN "None" ELSE S.toks[Len(S.toks)].ty
 RECURSIVE LastDefIdx(_, _)
 LastDefIdx(toks, i) == IF i < 1 THEN 0 ELSE IF toks[i].ch = "DEFAULT" THEN i ELSE LastDefIdx(toks, i - 1)
 LastDef(S) == LET i == LastDefIdx(S.toks, Len(S.toks)) IN IF i = 0 THEN "None" ELSE S.toks[i].ty
-UpdateLast(S, ch, ty) ==
-  IF S.toks = <<>> THEN Emit(EmitErr(Fault(S, "NoTokenToReplace"), "InternalErrorNoTokenToReplace"), ch, ty)
-  ELSE [S EXCEPT !.toks[Len(S.toks)] = [@ EXCEPT !.ty = ty, !.ch = ch]]
+\* update_last_token: type, channel and payload (n bytes appended to the literal buffer; n < 0: none)
+UpdateLast(S, ch, ty, n) ==
+  IF S.toks = <<>> THEN EmitS(EmitErr(Fault(S, "NoTokenToReplace"), "InternalErrorNoTokenToReplace"), ty, n)
+  ELSE IF n < 0 THEN [S EXCEPT !.toks[Len(S.toks)] = [@ EXCEPT !.ty = ty, !.ch = ch, !.pk = PkOf(ty), !.ps = 0, !.pe = 0]]
+  ELSE [S EXCEPT !.toks[Len(S.toks)] = [@ EXCEPT !.ty = ty, !.ch = ch, !.pk = "s", !.ps = S.nlit, !.pe = S.nlit + n],
+                 !.nlit = @ + n]
 
 Pend(S) == S.pend[Len(S.pend)] = 1
 SetPend(S, v) == [S EXCEPT !.pend[Len(S.pend)] = IF v THEN 1 ELSE 0]
@@ -116,7 +150,7 @@ Op(S, o) == [S EXCEPT !.ops = Append(@, o)]
 Checkpoint(S) ==
   LET S1 == IF S.ck.set THEN Op(Fault(S, "CheckpointOverLive"), "CL") ELSE Op(S, "C") IN
   [S1 EXCEPT !.ck = [set |-> TRUE, pos |-> S.pos, ts |-> S.ts, ml |-> Len(S.modes),
-                     nt |-> Len(S.toks), nl |-> Len(S.lines)]]
+                     nt |-> Len(S.toks), nl |-> Len(S.lines), ns |-> S.nlit]]
 ClearCk(S) == [Op(S, IF S.ck.set THEN "X" ELSE "XN") EXCEPT !.ck = NoCk]
 Rollback(S) ==
   IF S.ck.set
@@ -124,6 +158,7 @@ Rollback(S) ==
                            !.modes = SubSeq(S.modes, 1, IF S.ck.ml < Len(S.modes) THEN S.ck.ml ELSE Len(S.modes)),
                            !.toks = SubSeq(S.toks, 1, IF S.ck.nt < Len(S.toks) THEN S.ck.nt ELSE Len(S.toks)),
                            !.lines = SubSeq(S.lines, 1, IF S.ck.nl < Len(S.lines) THEN S.ck.nl ELSE Len(S.lines)),
+                           !.nlit = IF S.ck.ns < S.nlit THEN S.ck.ns ELSE S.nlit,
                            !.ck = NoCk]
     ELSE EmitErr(Fault(Op(S, "RM"), "MissingCheckpoint"), "InternalErrorMissingCheckpoint")
 
@@ -222,13 +257,17 @@ ExprEnding(ty) ==
 LexSingleQuoted(S, T) ==
   LET cl == QuoteClose(T.cs, "'", S.pos + 2)          \* 1-based index of the closing quote, 0 if none
   IN IF cl = 0
-       THEN EmitErr(EmitD(AdvLines([S EXCEPT !.la = TLen(T) + 1], T, TLen(T)), "StringLiteral"),
+       THEN EmitErr(EmitS(AdvLines([S EXCEPT !.la = TLen(T) + 1], T, TLen(T)), "StringLiteral",
+                          QPay(T, "'", S.pos + 1, TLen(T))),
                     "UnterminatedStringLiteral")
        ELSE LET S1 == AdvLines(S, T, cl)                \* just past the closing quote
                 en == LitEnding(T, S1.pos)
                 S2 == Look(Adv(S1, en[2]), S1.pos + 2)
-                bad == en[1] = "HexStringLiteral" /\ ~HexValid(SubSeq(T.cs, S.pos + 2, cl - 1))
-            IN IF bad THEN EmitErr(EmitD(S2, en[1]), "InvalidHexStringConstant") ELSE EmitD(S2, en[1])
+                content == SubSeq(T.cs, S.pos + 2, cl - 1)
+                hex == en[1] = "HexStringLiteral"
+                bad == hex /\ ~HexValid(content)
+                pay == IF hex /\ ~bad THEN HexBytes(content) ELSE QPay(T, "'", S.pos + 1, cl - 1)
+            IN IF bad THEN EmitErr(EmitS(S2, en[1], pay), "InvalidHexStringConstant") ELSE EmitS(S2, en[1], pay)
 
 \* lex_string_expression_start
 LexStrExprStart(S, allowStat) == Push(EmitD(Adv(S, 1), "StringExprStart"), MStrExpr(allowStat))
@@ -510,32 +549,36 @@ LexDoubleQuotedLiteral(S, T) ==
       S2 == Look(Adv(S1, en[2]), S1.pos + 2)
       \* content of the literal: from after the opening quote (token start - 1 is the quote)
       st == IF S.toks = <<>> THEN S.ts ELSE S.toks[Len(S.toks)].c
-      bad == en[1] = "HexStringLiteral" /\ ~HexValid(SubSeq(T.cs, st + 2, S.pos))
+      content == SubSeq(T.cs, st + 2, S.pos)
+      hex == en[1] = "HexStringLiteral"
+      bad == hex /\ ~HexValid(content)
       S3 == IF bad THEN EmitErr(S2, "InvalidHexStringConstant") ELSE S2
-  IN Pop(UpdateLast(S3, "DEFAULT", en[1]))
+      \* payload: the text scanned since the token start (S.ts) up to the closing quote, or the decoded hex
+      pay == IF hex /\ ~bad THEN HexBytes(content) ELSE QPay(T, "\"", S.ts, S.pos)
+  IN Pop(UpdateLast(S3, "DEFAULT", en[1], pay))
 \* handle_unterminated_str_expr
-UnterminatedStrExpr(S, atEofPopped) ==
-  LET S1 == IF LastTok(S) = "StringExprStart" THEN UpdateLast(S, "DEFAULT", "StringLiteral")
-            ELSE EmitD(S, "StringExprEnd")
+UnterminatedStrExpr(S, atEofPopped, pay) ==
+  LET S1 == IF LastTok(S) = "StringExprStart" THEN UpdateLast(S, "DEFAULT", "StringLiteral", pay)
+            ELSE EmitS(S, "StringExprEnd", pay)
       S2 == EmitErr(S1, "UnterminatedStringLiteral")
   IN IF atEofPopped THEN S2 ELSE Pop(S2)
 \* lex_str_expr_text
 RECURSIVE StrTextLoop(_, _)
 StrTextLoop(S, T) ==
-  IF Eof(T, S.pos) THEN UnterminatedStrExpr([S EXCEPT !.la = TLen(T) + 1], FALSE)
+  IF Eof(T, S.pos) THEN UnterminatedStrExpr([S EXCEPT !.la = TLen(T) + 1], FALSE, QPay(T, "\"", S.ts, S.pos))
   ELSE LET c == At(T, S.pos) IN
        IF c = "&" THEN
             LET am == IsMacroAmp(T, S.pos) IN
-            IF am[1] THEN EmitD(Look(S, S.pos + am[2] + 1), "StringExprText")
+            IF am[1] THEN EmitS(Look(S, S.pos + am[2] + 1), "StringExprText", QPay(T, "\"", S.ts, S.pos))
             ELSE StrTextLoop(Adv(S, am[2]), T)
        ELSE IF c = "%" THEN
-            IF IsMacroPercent(T, S.pos + 1, FALSE) THEN EmitD(Look(S, S.pos + 2), "StringExprText")
+            IF IsMacroPercent(T, S.pos + 1, FALSE) THEN EmitS(Look(S, S.pos + 2), "StringExprText", QPay(T, "\"", S.ts, S.pos))
             ELSE StrTextLoop(Adv(S, 1), T)
        ELSE IF c = LF THEN StrTextLoop(AddLine(Adv(S, 1)), T)
        ELSE IF c = "\"" THEN
             IF Is1(T, S.pos + 1, "\"") THEN StrTextLoop(Adv(S, 2), T)
             ELSE IF LastTok(S) = "StringExprStart" THEN LexDoubleQuotedLiteral(S, T)
-            ELSE EmitD(Look(S, S.pos + 2), "StringExprText")
+            ELSE EmitS(Look(S, S.pos + 2), "StringExprText", QPay(T, "\"", S.ts, S.pos))
        ELSE StrTextLoop(Adv(S, 1), T)
 
 DispatchStrExpr(S0, T, allowStat) ==
@@ -821,7 +864,7 @@ DispatchMaybeArgsOrLabel(S, T, checkLabel) ==
            pi == IF li1 > 0 THEN LastDefIdx(S1.toks, li1 - 1) ELSE 0
            prevTy == IF pi > 0 THEN S1.toks[pi].ty ELSE "None"
            S2 == IF MacroSepOn /\ li1 > 0 /\ NeedsMacroSep(prevTy, S1.toks[li1].ty)
-                   THEN InsertTok(S1, li1, [ty |-> "MacroSep", ch |-> "DEFAULT", c |-> S1.toks[li1].c])
+                   THEN InsertTok(S1, li1, Tk("MacroSep", "DEFAULT", S1.toks[li1].c))
                    ELSE S1
        IN Pop(ClearCk(Emit(Adv(StartTok(S2), 1), "HIDDEN", "COLON")))
   ELSE Rollback(S)
@@ -948,27 +991,34 @@ DispatchDefName(S0, T) ==
 
 \* ---------------------------------------------------------------- %str / %nrstr
 StrQuotChars == {"\"", "'", "%", "(", ")"}
-EmitUpdNestingStr(S, ln) == EmitUpdNesting(S, ln)
+\* payload of %str/%nrstr text: T[ts..ss) was consumed by the dispatcher, %-pairs are scanned from ss
+StrPay(S, T) == LET r == PScan(T, S.ss, S.pos, FALSE, SumW(T, S.ts, S.ss)) IN IF r[1] THEN r[2] ELSE 0 - 1
+EmitUpdNestingStr(S, T, ln) ==
+  LET S1 == EmitS(S, "MacroString", StrPay(S, T))  m == Top(S1) IN
+  IF ln = 0 THEN S1
+  ELSE IF m.p + ln < 0 THEN Fault(S1, "ParenUnderflow")
+  ELSE SetTop(S1, [m EXCEPT !.p = @ + ln])
 RECURSIVE StrCallLoop(_, _, _, _, _)
 StrCallLoop(S, T, mask, pnl, ln) ==
-  IF Eof(T, S.pos) THEN EmitUpdNestingStr([S EXCEPT !.la = TLen(T) + 1], ln)
+  IF Eof(T, S.pos) THEN EmitUpdNestingStr([S EXCEPT !.la = TLen(T) + 1], T, ln)
   ELSE LET c == At(T, S.pos) IN
-       IF c \in {"'", "\""} THEN EmitUpdNestingStr(S, ln)
-       ELSE IF c = "/" /\ Is1(T, S.pos + 1, "*") THEN EmitUpdNestingStr(S, ln)
+       IF c \in {"'", "\""} THEN EmitUpdNestingStr(S, T, ln)
+       ELSE IF c = "/" /\ Is1(T, S.pos + 1, "*") THEN EmitUpdNestingStr(S, T, ln)
        ELSE IF c = "&" /\ ~mask THEN
             (LET am == IsMacroAmp(T, S.pos) IN
-             IF am[1] THEN EmitUpdNestingStr(Look(S, S.pos + am[2] + 1), ln)
+             IF am[1] THEN EmitUpdNestingStr(Look(S, S.pos + am[2] + 1), T, ln)
              ELSE StrCallLoop(Adv(S, am[2]), T, mask, pnl, ln))
        ELSE IF c = "%" THEN
             (IF At(T, S.pos + 1) \in StrQuotChars /\ ~Eof(T, S.pos + 1) THEN StrCallLoop(Adv(S, 2), T, mask, pnl, ln)
-             ELSE IF ~mask /\ IsMacroPercent(T, S.pos + 1, FALSE) THEN EmitUpdNestingStr(Look(S, S.pos + 2), ln)
+             ELSE IF ~mask /\ IsMacroPercent(T, S.pos + 1, FALSE) THEN EmitUpdNestingStr(Look(S, S.pos + 2), T, ln)
              ELSE StrCallLoop(Adv(S, 1), T, mask, pnl, ln))
        ELSE IF c = LF THEN StrCallLoop(AddLine(Adv(S, 1)), T, mask, pnl, ln)
        ELSE IF c = "(" THEN StrCallLoop(Adv(S, 1), T, mask, pnl, ln + 1)
        ELSE IF c = ")" /\ pnl + ln # 0 THEN StrCallLoop(Adv(S, 1), T, mask, pnl, ln - 1)
-       ELSE IF c = ")" THEN Pop(EmitD(S, "MacroString"))
+       ELSE IF c = ")" THEN Pop(EmitS(S, "MacroString", StrPay(S, T)))
        ELSE StrCallLoop(Adv(S, 1), T, mask, pnl, ln)
 
+SS(S) == [S EXCEPT !.ss = S.pos]      \* the scanner starts here (what precedes was consumed by the dispatcher)
 DispatchStrQuoted(S0, T, m) ==
   LET S == StartTok(S0)
       mask == m.n = 1  pnl == m.p
@@ -977,17 +1027,17 @@ DispatchStrQuoted(S0, T, m) ==
   IF c = "'" THEN LexSingleQuoted(S, T)
   ELSE IF c = "\"" THEN LexStrExprStart(S, TRUE)
   ELSE IF c = "/" THEN
-       (IF d = "*" THEN LexCStyleComment(S, T) ELSE StrCallLoop(Adv(S, 1), T, mask, pnl, 0))
+       (IF d = "*" THEN LexCStyleComment(S, T) ELSE StrCallLoop(SS(Adv(S, 1)), T, mask, pnl, 0))
   ELSE IF c = "&" /\ ~mask THEN
        (LET mv == LexMacroVarExpr(S, T) IN
-        IF mv[1] THEN mv[2] ELSE StrCallLoop(EatAmps(mv[2], T), T, mask, pnl, 0))
+        IF mv[1] THEN mv[2] ELSE StrCallLoop(SS(EatAmps(mv[2], T)), T, mask, pnl, 0))
   ELSE IF c = "%" /\ ~mask THEN
-       (IF d \in StrQuotChars /\ ~Eof(T, S.pos + 1) THEN StrCallLoop(S, T, mask, pnl, 0)
+       (IF d \in StrQuotChars /\ ~Eof(T, S.pos + 1) THEN StrCallLoop(SS(S), T, mask, pnl, 0)
         ELSE IF NsAt(T, S.pos + 1) THEN LexMacroIdentifier(S, T, FALSE)
-        ELSE StrCallLoop(Adv(Look(S, S.pos + 2), 1), T, mask, pnl, 0))
-  ELSE IF c = LF THEN StrCallLoop(AddLine(Adv(S, 1)), T, mask, pnl, 0)
+        ELSE StrCallLoop(SS(Adv(Look(S, S.pos + 2), 1)), T, mask, pnl, 0))
+  ELSE IF c = LF THEN StrCallLoop(SS(AddLine(Adv(S, 1))), T, mask, pnl, 0)
   ELSE IF c = ")" /\ pnl = 0 THEN Pop(S)
-  ELSE StrCallLoop(S, T, mask, pnl, 0)
+  ELSE StrCallLoop(SS(S), T, mask, pnl, 0)
 
 \* ---------------------------------------------------------------- %do, %local / %global
 DispatchMacroDo(S0, T) ==
@@ -1062,7 +1112,7 @@ FinalizeStep(S0, T) ==
     [] m.k \in {"ExpectSemiOrEOF", "MacroDo"} -> EmitD(S, "SEMI")
     [] m.k \in {"MacroStrQuotedExpr", "MacroCallValue", "MacroEval"} ->
          IF m.p > 0 THEN EmitN(EmitErr(S, "MissingExpectedRParen"), "RPAREN", m.p) ELSE S
-    [] m.k = "StringExpr" -> UnterminatedStrExpr(S, FALSE)      \* pops one more mode, like the code
+    [] m.k = "StringExpr" -> UnterminatedStrExpr(S, FALSE, 0 - 1)   \* pops one more mode, like the code
     [] m.k = "MacroNameExpr" -> IF m.a # "" THEN EmitErr(S, m.a) ELSE S
     [] m.k = "MacroDefName" -> EmitErr(S, "InvalidMacroDefName")
     [] OTHER -> S
